@@ -66,62 +66,76 @@ func C11(run *report.Run) {
 		pairs = append(pairs, pair{"bearer", "oauth2"}, pair{"basic", "apikey-hdr"}, pair{"oauth2", "apikey-hdr"}, pair{"oidc", "bearer"}, pair{"apikey-cookie", "apikey-query"})
 	}
 	globals := []string{"none", "[A]", "[A,B]"}
-	nops := 2
+	nopsList := []int{2}
+	if run.Tier == "thorough" {
+		nopsList = []int{2, 3} // three operations only for supported-scheme pairs, see below
+	}
 	var states []BState
 	seen := map[string]bool{}
-	for _, pr := range pairs {
-		for _, g := range globals {
-			for _, placement := range []string{"same-path", "different-paths"} {
-				var rec func(opts []string)
-				rec = func(opts []string) {
-					if len(opts) < nops {
-						for _, o := range c11OpOptions {
-							rec(append(append([]string{}, opts...), o))
-						}
-						return
+	for _, nops := range nopsList {
+		for _, pr := range pairs {
+			if nops == 3 && (kindOfScheme(pr.a) == "unsupported" || kindOfScheme(pr.b) == "unsupported" || pr.a > pr.b) {
+				continue
+			}
+			for _, g := range globals {
+				for _, placement := range []string{"same-path", "different-paths"} {
+					if nops == 3 && placement == "different-paths" {
+						continue
 					}
-					// symmetry: swapping the two operations on different paths gives the same state
-					if placement == "different-paths" && opts[0] > opts[1] {
-						return
-					}
-					id := fmt.Sprintf("sec[A=%s,B=%s,global=%s,%s,ops=%s]", pr.a, pr.b, g, placement, strings.Join(opts, "|"))
-					if seen[id] {
-						return
-					}
-					seen[id] = true
-					sa, sb := cells.SchemeKinds[pr.a], cells.SchemeKinds[pr.b]
-					sa.Key, sb.Key = "A", "B"
-					s := &spec.Spec{}
-					s.Comp.Security = []spec.SecScheme{sa, sb}
-					if g != "none" {
-						s.Security = c11Sec(g)
-					}
-					methods := []string{"GET", "POST", "PUT"}
-					var sops []refmodel.SecOp
-					for i, o := range opts {
-						op := &spec.Op{Method: "GET", Security: c11Sec(o), Responses: []*spec.Response{{Status: "default", Desc: "d"}}}
-						path := "/p"
-						if placement == "same-path" {
-							op.Method = methods[i]
-							if i == 0 {
-								s.Paths = append(s.Paths, &spec.PathItem{Template: path})
+					var rec func(opts []string)
+					rec = func(opts []string) {
+						if len(opts) < nops {
+							for _, o := range c11OpOptions {
+								rec(append(append([]string{}, opts...), o))
 							}
-							s.Paths[0].Ops = append(s.Paths[0].Ops, op)
-						} else {
-							path = fmt.Sprintf("/p%d", i)
-							s.Paths = append(s.Paths, &spec.PathItem{Template: path, Ops: []*spec.Op{op}})
+							return
 						}
-						var eff [][]string
-						for _, alt := range s.EffectiveSecurity(op) {
-							eff = append(eff, append([]string{}, alt...))
+						// symmetry: swapping the two operations on different paths gives the same state
+						if placement == "different-paths" && opts[0] > opts[1] {
+							return
 						}
-						sops = append(sops, refmodel.SecOp{Method: op.Method, Path: path, Effective: eff})
+						if nops == 3 && !(opts[0] != opts[1] || opts[1] != opts[2]) {
+							return // three equal operations add nothing over two
+						}
+						id := fmt.Sprintf("sec[A=%s,B=%s,global=%s,%s,ops=%s]", pr.a, pr.b, g, placement, strings.Join(opts, "|"))
+						if seen[id] {
+							return
+						}
+						seen[id] = true
+						sa, sb := cells.SchemeKinds[pr.a], cells.SchemeKinds[pr.b]
+						sa.Key, sb.Key = "A", "B"
+						s := &spec.Spec{}
+						s.Comp.Security = []spec.SecScheme{sa, sb}
+						if g != "none" {
+							s.Security = c11Sec(g)
+						}
+						methods := []string{"GET", "POST", "PUT"}
+						var sops []refmodel.SecOp
+						for i, o := range opts {
+							op := &spec.Op{Method: "GET", Security: c11Sec(o), Responses: []*spec.Response{{Status: "default", Desc: "d"}}}
+							path := "/p"
+							if placement == "same-path" {
+								op.Method = methods[i]
+								if i == 0 {
+									s.Paths = append(s.Paths, &spec.PathItem{Template: path})
+								}
+								s.Paths[0].Ops = append(s.Paths[0].Ops, op)
+							} else {
+								path = fmt.Sprintf("/p%d", i)
+								s.Paths = append(s.Paths, &spec.PathItem{Template: path, Ops: []*spec.Op{op}})
+							}
+							var eff [][]string
+							for _, alt := range s.EffectiveSecurity(op) {
+								eff = append(eff, append([]string{}, alt...))
+							}
+							sops = append(sops, refmodel.SecOp{Method: op.Method, Path: path, Effective: eff})
+						}
+						schemes := []refmodel.Scheme{{Key: "A", Kind: kindOfScheme(pr.a), Name: sa.Name}, {Key: "B", Kind: kindOfScheme(pr.b), Name: sb.Name}}
+						pl := &drv.SecPayload{State: id, Schemes: schemes, Ops: sops}
+						states = append(states, BState{ID: id, Attrs: map[string]string{"A": pr.a, "B": pr.b, "global": g, "placement": placement}, Gen: &genrun.Job{Spec: s.YAML()}, Prop: "C11", Payload: pl})
 					}
-					schemes := []refmodel.Scheme{{Key: "A", Kind: kindOfScheme(pr.a), Name: sa.Name}, {Key: "B", Kind: kindOfScheme(pr.b), Name: sb.Name}}
-					pl := &drv.SecPayload{State: id, Schemes: schemes, Ops: sops}
-					states = append(states, BState{ID: id, Attrs: map[string]string{"A": pr.a, "B": pr.b, "global": g, "placement": placement}, Gen: &genrun.Job{Spec: s.YAML()}, Prop: "C11", Payload: pl})
+					rec(nil)
 				}
-				rec(nil)
 			}
 		}
 	}
